@@ -463,6 +463,15 @@ func (g *G) InstancePlants(c *Change, n, m int) ([]Plant, []string) {
 	var plants []Plant
 	var kinds []string
 	for i := 0; i < n; i++ {
+		if i == 0 && c.OrigFill != nil && g.R.Intn(2) == 0 {
+			// the fragment the pattern was abstracted from (elisions get fresh runs)
+			_, f := c.Instance(g)
+			f.Meta = c.OrigFill.Meta
+			if t := c.Substitute(c.Side('-'), f); PlantParses(c.Kind, t) {
+				plants = append(plants, Plant{Kind: c.Kind, Text: t})
+				continue
+			}
+		}
 		for try := 0; try < 5; try++ {
 			t, _ := c.Instance(g)
 			if PlantParses(c.Kind, t) {
